@@ -17,6 +17,11 @@ class Tok:
         return f"<{self.name}>"
 
 
+class FalsyTok(Tok):
+    def __bool__(self):
+        return False
+
+
 class ScriptedError(Exception):
     pass
 
@@ -117,6 +122,8 @@ def drive(gen, script, sent, thrown):
             if step.startswith("send"):
                 if step == "send(None)":
                     v = None
+                elif step == "send(falsy)":
+                    v = sent.setdefault(i, FalsyTok(f"falsy{i}"))
                 elif step == "send([device])":
                     v = [outs[-1][1].obj]
                 else:
